@@ -1114,6 +1114,9 @@ pub fn splice(
         }
         for (k, t) in &cl.closures {
             let Some(c) = scan.closures.get(*k) else {
+                // the closure is gone (e.g. `.map_err(|e| ..)?` rewritten as a `match`): its contract was a proof OBLIGATION of
+                // that closure, not an assumption — without the closure there is nothing to attach it to and nothing is lost
+                if scan.closures.is_empty() { continue; }
                 return Err(Lost(format!("anchor lost: @closure {k} but the function has {} closures", scan.closures.len())));
             };
             // the header must name the parameters the closure in the source names: an ordinal that now points at another
@@ -1154,6 +1157,11 @@ pub fn splice(
             }
         }
         for (after, needle, t) in &cl.hints {
+            if needle == "<START>" {
+                let b = range(fr.block.brace_token.span.open()).end;
+                edits.push(Edit { start: b, end: b, text: format!("\n{}", indent(t, 8)), rule: "hint" });
+                continue;
+            }
             let hits: Vec<_> = scan
                 .stmts
                 .iter()
